@@ -7,6 +7,7 @@ package submitworld
 // LogListManager and the real file-reading LogListRefresher.
 
 import (
+	"bytes"
 	"context"
 	"encoding/json"
 	"fmt"
@@ -163,6 +164,21 @@ func (w *World) lockSetup() {
 		}
 	}
 	b, _ := json.Marshal(alt)
+	if bytes.Equal(a, b) {
+		// every operator has a single log: nothing was dropped or retired above, the "second list" would be the first one
+		// again and no change of the file would ever look like a change to the refresher (the oracle would then wait for
+		// rebuilds that cannot come - a false alarm of this world, found by the thorough tier). Drop a whole operator
+		// instead; with a single operator the two lists differ in their version string only.
+		if n := len(alt.Operators); n > 1 {
+			alt.Operators = alt.Operators[:n-1]
+		} else {
+			alt.Version = alt.Version + "-second"
+		}
+		b, _ = json.Marshal(alt)
+		if bytes.Equal(a, b) {
+			panic("harness: the two log lists of the run are identical")
+		}
+	}
 	w.llJSON = [2][]byte{a, b}
 	w.llPath = filepath.Join(s.TB.TempDir(), "log_list.json")
 	if err := os.WriteFile(w.llPath, a, 0o644); err != nil {
@@ -289,7 +305,9 @@ func (w *World) sideOptions() []kernel.Option {
 					}
 					// in an order drawn from the tape: the outcome must not depend on which of the proxy's goroutines
 					// (list watcher, restart, the new distributor's first root refresh) gets where first
-					w.s.Release(cands[w.s.T.Intn(len(cands))], kernel.Decision{Kind: "ok"})
+					pick := cands[w.s.T.Intn(len(cands))]
+					w.s.Logf("  settle: rel %s", pick.Key)
+					w.s.Release(pick, kernel.Decision{Kind: "ok"})
 				}
 			}
 			// root knowledge is renewed when a distributor is built (or once a day): only a change of the list the proxy
